@@ -17,7 +17,7 @@ RULE = ("hist: random histories (4-25 ops: put/touch/get/DELETE/trash-list item 
         "on 1-2 Directory volumes (writable/read-only, Serialize on/off), TTL 0-8 units, trash lifetime 0-4 units, "
         "BlobTrash on/off, read-only volumes of both kinds (Volumes.*.ReadOnly and AccessViaHosts.<url>.ReadOnly), DELETE of copies "
         "half a second younger / older than the TTL, planted intact/corrupt copies and trash entries of arbitrary age; non-trivial = the history "
-        "removes or restores at least one copy. race: schedules of P in {TOUCH, PUT} against T in {DELETE, TrashItem} on "
+        "removes or restores at least one copy. race: schedules of P in {TOUCH, PUT} against T in {DELETE, TrashItem, untrash request} on "
         "one block for Serialize in {0,1}, lifetime in {0,>0}, pre-existing copy in {absent, intact, corrupt}, age in "
         "{old, fresh}; thorough enumerates every placement of T's steps between P's steps, quick samples; non-trivial = "
         "both threads take at least one step before the other finishes; distinct = distinct case line")
@@ -74,6 +74,8 @@ WSTEPS = 9
 
 def _tsteps(top, pre, age):
     """upper bound of T's number of steps"""
+    if top == "untrash":
+        return 3                # ReadDir, Rename, Chtimes
     if top == "ti":
         if pre == "a":
             return 1            # Mtime fails or mismatches
@@ -121,7 +123,7 @@ def _race_configs():
             for pre in "agc":
                 for age in "of":
                     for pop in ("touch", "put"):
-                        for top in ("del", "ti"):
+                        for top in ("del", "ti", "untrash"):
                             yield ser, life, pre, age, pop, top
 
 
